@@ -28,9 +28,10 @@ SHAPES = {
 SURE_INTRINSIC = ["abs", "cos", "sin", "tan", "exp", "log", "max", "min", "mod", "int", "dim", "len", "sum", "any", "all", "real", "sqrt", "nint", "sign", "size", "acos", "iabs", "dcos", "max0", "char"]
 
 
-def text(shape, name, decl, args, U=None):
-    """U: scope id -> spelling of the unit name (letter case may be symbolic)"""
-    src = _text(shape, name, decl, args)
+def text(shape, name, decl, args, U=None, gap=""):
+    """U: scope id -> spelling of the unit name (letter case may be symbolic); gap: blanks between
+    the referenced name and its argument list"""
+    src = _text(shape, name, decl, args, gap)
     if U:
         for sid, spelled in U.items():
             for kw in ("program ", "module ", "subroutine ", "function "):
@@ -38,9 +39,9 @@ def text(shape, name, decl, args, U=None):
     return src
 
 
-def _text(shape, name, decl, args):
+def _text(shape, name, decl, args, gap=""):
     d = lambda s: ("  real :: " + name + "(10)\n") if s in decl else ""
-    r = lambda s: "  y" + s + " = " + name + "(" + args + ")\n"
+    r = lambda s: "  y" + s + " = " + name + gap + "(" + args + ")\n"
     if shape == "prog":
         return "program p\n" + d("p") + r("p") + "end program p\n"
     if shape == "module":
@@ -72,7 +73,8 @@ def units(tier):
         ids = [s[0] for s in scopes]
         for decl in _subsets(ids):
             for n in ((3, 4) if (not q or shape in ("prog",)) else (3,)):
-                us.append(dict(h="scopes", shape=shape, decl=decl, n=n, std="f2008", cost=len(decl) + n))
+                k = len(us)
+                us.append(dict(h="scopes", shape=shape, decl=decl, n=n, std="f2008", gap=("", " ", "  ")[k % 3], cost=len(decl) + n))
     return us
 
 
@@ -122,8 +124,13 @@ def scopes(ctx):
     if args is None:
         return
     ctx.observe("k0", k0)
-    sure = api.disj([low == s for s in SURE_INTRINSIC if len(s) == p["n"]])
-    if ctx.holds(sure):
+    # the oracle branches on the listed names itself (it must not rely on the implementation
+    # having distinguished them on this path)
+    is_sure = False
+    for s in SURE_INTRINSIC:
+        if len(s) == p["n"] and low == s:
+            is_sure = True
+    if is_sure:
         ctx.check(k0, "a standard intrinsic function name is not recognised as intrinsic")
     has_nonletter = api.disj([api.char_in(ch, "_") for ch in name])
     if ctx.holds(has_nonletter):
@@ -134,7 +141,7 @@ def scopes(ctx):
     for sid, par in sc:
         if sid != "b":
             U[sid] = ctx.chars("u" + sid, 1, sid + sid.upper())
-    src = text(shape, name, p["decl"], args, U)
+    src = text(shape, name, p["decl"], args, U, p.get("gap", ""))
     ctx.observe("src", src)
     r = C.outcome(lambda: C.parse(src, p["std"], True))
     ctx.check(r[0] == "ok", "valid program rejected (" + r[0] + ")")
